@@ -211,7 +211,7 @@ def _exc_info(spec):
         return sys.exc_info()
 
 
-def run_impl(case):
+def _run_impl(case):
     if case["kind"] == "isspace":
         return {"out": [chr(c).isspace() for c in range(case["lo"], case["hi"])]}
     if case["kind"] == "rstrip":
@@ -229,8 +229,9 @@ def run_impl(case):
     for _ in range(case["calls"] - 1):
         try:
             fmt.format(rec)
-        except Exception:
-            pass
+        except Exception as e:
+            if type(e).__name__ == "Hang":
+                raise
     # the stdlib results the model takes as inputs, computed from the same record just before the call
     try:
         m = rec.getMessage()
@@ -246,8 +247,23 @@ def run_impl(case):
             out = "Uncaught:returned-" + type(out).__name__
             return {"params": params, "out": None, "exc": out}
     except Exception as e:
+        if type(e).__name__ == "Hang":
+            raise
         return {"params": params, "out": None, "exc": "Uncaught:" + type(e).__name__}
     return {"params": params, "out": out}
+
+def run_impl(case):
+    """One retry when the runner's wall-clock watchdog fires: on a heavily loaded machine a trivial case can stall
+    (file I/O, scheduling) for minutes; a genuinely looping implementation fails the retry as well and is reported."""
+    import signal
+    try:
+        return _run_impl(case)
+    except BaseException as e:
+        if type(e).__name__ != "Hang":
+            raise
+        signal.setitimer(signal.ITIMER_REAL, CASE_TIMEOUT)
+        return _run_impl(case)
+
 
 
 def model_requests(case, impl):
